@@ -66,7 +66,9 @@ def run(ctx):
             vals = [[a, b] for a in POOL for b in POOL]
         else:
             vals = [[rnd.choice(POOL) for _ in range(nslots)] for _ in range(per)]
-        icases.append(dict(id=len(icases), mt=v["mt"], code=v["code"], vals=vals, style=(i + ctx.seed) % 2))
+        if not (len(v["mt"]) == 3 and nslots == 2):
+            vals = vals + [[rnd.choice(POOL[:14]) for _ in range(nslots)] for _ in range(3)]       # a few more rows for the re-evaluation pass
+        icases.append(dict(id=len(icases), mt=v["mt"], code=v["code"], vals=vals, style=(i + ctx.seed) % 2, style2=(i // 2 + ctx.seed) % 4))
     ires = common.run_harness(ctx, znh, "iexpr", icases, timeout=3000)
     if len(ires) != len(icases):
         raise common.NoVerdict("harness returned %d results for %d family-I cases" % (len(ires), len(icases)))
@@ -97,7 +99,8 @@ def run(ctx):
              "numeric leaves replaced by slots, LOWERED by the spec to primitive code (+ - * / floor, ordered comparisons, ==; TLC invariant "
              "LoweringAgrees: the lowered code over exact rationals = the reference evaluator on every tree of families A/B/R); the harness runs "
              "the lowered code over float64 with slot values from a 25-value pool (0, -0, 0.1, 4.35, 2^53+1, 1e308, 5e-324, +-Inf, NaN, ...): "
-             "every operator x every ordered pair, random assignments for the triples; results compared bit for bit",
+             "every operator x every ordered pair, random assignments for the triples; results compared bit for bit; RE-EVALUATION: every slot tree also as the body of a method whose inputs carry the slots "
+             "(names of 4 shapes, also names that begin with + or -), called for all rows of slot values within ONE execution: row by row the result of the lowered code",
         ieee_cases=len(icases), ieee_runs=iruns,
         vectors=len(vecs), expected_values=outs["done"], expected_errors=outs["err"], skipped_magnitude_guard=outs["big"],
         exhaustive=(ctx.tier == "quick"),
